@@ -75,3 +75,62 @@ theorem bump_cont (t : Int) (hor : Bool) (g : G) : (bump t hor g).cont = g.cont 
   unfold bump; split <;> rfl
 
 end RbModel.Trak
+
+/-! ## the place of tracking in `position_complex` (C13) -/
+namespace RbModel.Trak
+open RbModel.Pipeline RbModel.Gen.Pipeline
+
+/-- a slot that is a default ignorable has zero advance and zero offset -/
+def HiddenZero (g : G) : Prop := g.isDI = true → g.xa = 0 ∧ g.ya = 0 ∧ g.xo = 0 ∧ g.yo = 0
+
+theorem hiddenZero_zeroDI1 (g : G) : HiddenZero (zeroDI1 g) := by
+  intro h
+  unfold zeroDI1 at h ⊢
+  by_cases hd : g.isDI = true
+  · simp [hd]
+  · simp only [hd] at h
+    exact absurd h hd
+
+theorem hiddenZero_zeroMark (adjust : Bool) (g : G) (h : HiddenZero g) : HiddenZero (zeroMark adjust g) := by
+  intro hd
+  have hd' : g.isDI = true := by
+    unfold zeroMark at hd
+    cases adjust <;> simpa [G.isDI] using hd
+  obtain ⟨h1, h2, h3, h4⟩ := h hd'
+  unfold zeroMark
+  cases adjust <;> simp [h1, h2, h3, h4]
+
+theorem hiddenZero_positionMarksFb (adjust : Bool) (seen : Bool) (l : List G) (h : ∀ g ∈ l, HiddenZero g) :
+    ∀ g ∈ positionMarksFb adjust seen l, HiddenZero g := by
+  induction l generalizing seen with
+  | nil => intro g hg; simp [positionMarksFb] at hg
+  | cons a tl ih =>
+    intro g hg
+    have ha := h a List.mem_cons_self
+    have htl : ∀ g ∈ tl, HiddenZero g := fun g hg => h g (List.mem_cons_of_mem _ hg)
+    unfold positionMarksFb at hg
+    by_cases hm : a.isMark = true
+    · simp only [hm, if_true] at hg
+      rcases List.mem_cons.mp hg with rfl | hg
+      · split
+        · exact hiddenZero_zeroMark adjust a ha
+        · exact ha
+      · exact ih seen htl g hg
+    · simp only [hm] at hg
+      rcases List.mem_cons.mp hg with rfl | hg
+      · exact ha
+      · exact ih true htl g hg
+
+/-- whatever ran before it, `zero_width_default_ignorables` (when it runs) followed by the fallback mark pass leaves every
+    default ignorable with zero advance and zero offset -/
+theorem hiddenZero_after_zeroing (c : Cfg) (s : Scratch) (adjust : Bool) (l : List G)
+    (hDI : s.hasDI = true) (hP : hasFlag c.flags BF_PRESERVE = false) (hR : hasFlag c.flags BF_REMOVE = false) :
+    ∀ g ∈ positionMarksFb adjust false (zeroWidthDI c s l), HiddenZero g := by
+  apply hiddenZero_positionMarksFb
+  intro g hg
+  unfold zeroWidthDI at hg
+  simp only [hDI, hP, hR, Bool.not_false, Bool.and_self, if_true] at hg
+  obtain ⟨a, _, rfl⟩ := List.mem_map.mp hg
+  exact hiddenZero_zeroDI1 a
+
+end RbModel.Trak
